@@ -114,8 +114,7 @@ struct Machine {
 			int r = a[0], q = a[1], t = a[2]; std::vector<std::size_t> s(a.begin() + 3, a.end());
 			Data<I> si, ci; Data<unsigned int> sl, cl;
 			R[r].inputs().indexedSubset(s, si, ci); R[r].labels().indexedSubset(s, sl, cl);
-			Shape sh = R[r].inputShape();
-			R[q] = DS(si, sl); R[t] = DS(ci, cl); R[q].inputShape() = sh; R[t].inputShape() = sh;
+			R[q] = DS(si, sl); R[t] = DS(ci, cl);   // the shapes are the ones indexedSubset hands out (no copy by hand)
 			dump(o, q); dump(o, t); }
 		else if (cmd == "T") { int r = a[0], q = a[1]; R[r].makeIndependent(); DS t = splitAtElement(R[r], a[2]); R[q] = t; dump(o, r); dump(o, q); }
 		else if (cmd == "B") { int r = a[0]; R[r].makeIndependent(); repartitionByClass(R[r], a[1]); dump(o, r); }
